@@ -369,7 +369,9 @@ def _kernel_model(case):
             if g in ("near", "mid", "far"):
                 ev = True
         elif g == "near":
-            strong = Kw[i] >= 1e-6 * Kw[i].max()
+            # any labeled sample whose kernel weight has not underflowed
+            # contributes a strictly positive scatter term (two-pass variance)
+            strong = Kw[i] >= 1e-150 * Kw[i].max()
             distinct = len(set(np.round(yl[strong], 6).tolist())) >= 2
             if (n0 > 0 and s0 > 0) or distinct:
                 ev = True  # kappa_post >= N > 0, nu_post >= N > 0
